@@ -40,6 +40,7 @@ CHANGE = {
  ('seeded10','C15'): ("RefCnt::into_ptr for Weak / rc::Weak reuses `Self::as_ptr` (the inherent Weak::as_ptr): Weak::new() converts to std's sentinel, not to null", "a dangling Weak::new(): as_ptr and into_ptr disagree; compare_and_swap / rcu on an empty ArcSwapWeak never return"),
  ('seeded10','C19'): ("unsafe impl Sync for Guard<T, S> where T::Base: Sync (the bound belongs on the pointer T)", "Guard<Rc<U>> or Guard<Arc<U>> with U: Sync + !Send shared by reference between threads"),
  ('seeded11','C01'): ("Debt::pay_all pays the fast slots only: the helping slot is left to `help()` (which looks at the control word alone)", "a reader on the fallback path between the end of its window and its own increment while a writer replaces the value: the value is destroyed under the reader"),
+ ('seeded11','C02'): ("Slots::help loads the two space offers once, before its loop (same idea as 9/C02 and 10/C03, found independently a third time)", "five threads on the fallback path: a helper whose own replacement load is helped, or a reader helped twice: two nodes share an envelope, a handed-over count is lost or released twice"),
  ('seeded11','C04'): ("hybrid compare_and_swap: strong exchange without the retry loop; after a failed exchange it returns a fresh load", "A-B-A by another writer between the failed exchange and the second load: the call reports success for a value it never stored"),
  ('seeded11','C05'): ("hybrid compare_and_swap: on a non-spurious failure of the exchange it drops everything and returns a fresh load instead of retrying", "A-B-A inside the call: returns `current` although `new` was rejected and destroyed; rcu loses an update"),
  ('seeded11','C08'): ("HybridProtection::fallback retries the whole fallback when its own pay-off finds the debt already paid", "a writer storing after every confirming swap of a reader that holds 8 guards: the reader's steps grow with the number of writes"),
